@@ -285,7 +285,7 @@ jsoncons::expected<void,std::error_code> parse_primitive(jsoncons::span<char> to
             case parse_number_state::zero:
                 if (c == '.')
                 {
-                    state = parse_number_state::digits;
+                    state = parse_number_state::fraction;
                     ++i;
                 }
                 else
@@ -302,7 +302,7 @@ jsoncons::expected<void,std::error_code> parse_primitive(jsoncons::span<char> to
                 }
                 break;
             case parse_number_state::digits:
-                if ((c >= '0' && c <= '9') || c == '-')
+                if (c >= '0' && c <= '9')
                 {
                     num_str.push_back(c);
                     ++i;
@@ -329,7 +329,7 @@ jsoncons::expected<void,std::error_code> parse_primitive(jsoncons::span<char> to
                     num_str.push_back(c);
                     ++i;
                 }
-                else if (c == 'e' || c == 'E')
+                else if ((c == 'e' || c == 'E') && decimal_places > 0)
                 {
                     state = parse_number_state::exponent_sign;
                     ++i;
@@ -374,6 +374,13 @@ jsoncons::expected<void,std::error_code> parse_primitive(jsoncons::span<char> to
                 not_a_number = true;
                 break;
         }
+    }
+
+    // A number is complete: digits before, digits after a decimal point, digits in an exponent
+    if (num_str.empty() || (state == parse_number_state::fraction && decimal_places == 0) ||
+        ((state == parse_number_state::exponent_sign || state == parse_number_state::exponent_value) && exponent_str.empty()))
+    {
+        not_a_number = true;
     }
 
     if (not_a_number)
